@@ -304,6 +304,9 @@ func suiteDbin(o *Out, r *Rng, n int, tier string) {
 			nt, nc := 6, 6
 			if tier == "thorough" {
 				nt, nc = 40, 40
+				if size > 1500 { // every variant carries the whole file in hex: keep the large files affordable
+					nt, nc = 10, 10
+				}
 			}
 			for k := 0; k < nt; k++ {
 				var p int
